@@ -79,6 +79,17 @@ def generate(tier, seed):
                     req.append(rnd.choice(vals_pool + ["/a/b", "/a/", "/éx", "/q/b/c"]))
             if d.get("abac"):
                 req[1] = {"owner": rnd.choice(["alice", "é", rnd.choice(vals_pool)])}
+            elif rules and rnd.random() < 0.5:
+                # derived from a stored rule: only the object is request-controlled noise or a near match
+                rl = rnd.choice(rules)
+                req = []
+                for i, f in enumerate(d["r"]):
+                    v = rl[i]
+                    if f == "obj":
+                        v = rnd.choice(["/a/b", "/a/", "/a", "/éx", "/é", "/q/b/c", "/q/b/", "a", "é", rnd.choice(vals_pool), "/a/" + rnd.choice(vals_pool)])
+                    elif f == "act" and v.startswith("^"):
+                        v = rnd.choice(["GET", "POST", "PUT", rnd.choice(vals_pool)])
+                    req.append(v)
             steps.append(Q_e(req))
         # chunk into cases of 60 requests
         for i in range(0, len(steps), 60):
